@@ -53,7 +53,8 @@ VARIABLES pc,        \* "root" | "env" | "emit" | "persist" | "done"
 
 vars == <<pc, p, c, run, dir, at, walk, stdin, disk, first, n, st, ret>>
 
-P == INSTANCE PersistSpec       \* n, st, ret, MaxJobs
+\* the Go backends always configure a post-processor (gofmt, or the identity under no_fmt)
+P == INSTANCE PersistSpec WITH withPP <- TRUE      \* n, st, ret, MaxJobs by name
 
 FileObjs == {"code", "refl", "fast", "extra"}        \* objects that are files below the output directory
 
